@@ -203,6 +203,7 @@ Inductive hop :=
 | OFlush                         (* Storage.Flush() *)
 | OSnap (ids : list Z)           (* the whole cache in key order + LoadRegion of these ids *)
 | OSaveRaw (r : region)          (* Storage.SaveRegion called by the harness itself (ballast in the write-back batch) *)
+| OReportSplit (rs : list region) (* HandleBatchReportSplit: the report of a split; it is logged and answered, the cache only learns from heartbeats *)
 | OReload.                       (* PD restarts: a fresh cache filled by Storage.LoadRegions (regions without leader, term, statistics) *)
 
 Record cdig := CDig { d_id : Z; d_start : key; d_end : key; d_ver : Z; d_conf : Z; d_term : Z; d_leader : Z; d_stamp : Z }.
@@ -250,6 +251,7 @@ Definition h_step (h : hstate) (o : hop) : hstate * hobs :=
   | OFlush => (HState (h_cache h) (flush (h_store h)) (h_threads h), HoUnit)
   | OSnap ids => (h, snapshot h ids)
   | OSaveRaw r => (HState (h_cache h) (save_region (h_store h) r) (h_threads h), HoUnit)
+  | OReportSplit _ => (h, HoUnit)
   | OReload => match h_threads h with
                | [] => let '(c, st) := reload (h_store h) in (HState c st [], HoUnit)
                | _ => (h, HoRes HBad)          (* the harness restarts only when no heartbeat is in flight *)
